@@ -593,10 +593,10 @@ def _inline_adjacent_temporaries(tree: ast.AST) -> None:
                     a, nxt = st[i], st[i + 1]
                     if isinstance(a, ast.Assign) and len(a.targets) == 1 and isinstance(a.targets[0], ast.Name) and not isinstance(a.value, ast.Constant) \
                             and not any(isinstance(x, (ast.Yield, ast.YieldFrom, ast.Await, ast.NamedExpr)) for x in ast.walk(a.value)) \
-                            and isinstance(nxt, (ast.Assign, ast.Expr, ast.Return, ast.AugAssign)):
+                            and isinstance(nxt, (ast.Assign, ast.Expr, ast.Return, ast.AugAssign, ast.If)):
                         t = a.targets[0].id
                         if t not in params and stores.get(t) == 1 and loads.get(t) == 1:
-                            reads = [x for x in ast.walk(nxt) if isinstance(x, ast.Name) and x.id == t and isinstance(x.ctx, ast.Load)]
+                            reads = [x for x in ast.walk(nxt.test if isinstance(nxt, ast.If) else nxt) if isinstance(x, ast.Name) and x.id == t and isinstance(x.ctx, ast.Load)]
                             scoped = any(isinstance(x, (ast.Lambda, ast.ListComp, ast.SetComp, ast.DictComp, ast.GeneratorExp)) and any(y is reads[0] for y in ast.walk(x))
                                          for x in ast.walk(nxt)) if reads else True
                             pure = all(isinstance(x, _PURE_NODES) for x in ast.walk(a.value))
@@ -606,6 +606,13 @@ def _inline_adjacent_temporaries(tree: ast.AST) -> None:
                                 nv = getattr(nxt, 'value', None)
                                 if isinstance(nv, (ast.Yield, ast.YieldFrom, ast.Await)) and nv.value is not None:
                                     nv = nv.value          # `yield from zip(labels, results)`
+                                if isinstance(nxt, ast.If):
+                                    # `flag = <test>` / `if [not] flag [and ...]:` — the first operand evaluated
+                                    nv = nxt.test
+                                    if isinstance(nv, ast.BoolOp):
+                                        nv = nv.values[0]
+                                    if isinstance(nv, ast.UnaryOp) and isinstance(nv.op, ast.Not):
+                                        nv = nv.operand
                                 direct = nv is reads[0] or (isinstance(nv, ast.Call) and (any(x is reads[0] for x in nv.args) or any(k.value is reads[0] for k in nv.keywords)))
                                 if not direct:
                                     scoped = True
@@ -617,7 +624,10 @@ def _inline_adjacent_temporaries(tree: ast.AST) -> None:
                                         if node is reads[0]:
                                             return ast.copy_location(val, node)
                                         return node
-                                S().visit(nxt)
+                                if isinstance(nxt, ast.If):
+                                    nxt.test = S().visit(nxt.test)
+                                else:
+                                    S().visit(nxt)
                                 del st[i]
                                 continue
                     i += 1
